@@ -19,6 +19,16 @@
 (*              (param = index into the harness' list PERMS: operands and      *)
 (*              operand pairs of the first instructions exchanged, so that     *)
 (*              two stores or a store and a load trade places)                 *)
+(*   swapgroup  two adjacent store groups exchanged.  A store group is a store  *)
+(*              with the instructions since the previous store, when that        *)
+(*              segment builds the store's operands without consuming or          *)
+(*              rearranging what was on the stack before it (field grp = its       *)
+(*              length, computed by the harness from the arity table, 0 if the     *)
+(*              segment is not of that form); param = position of the second       *)
+(*              store.  "Reordered conflicting store" for stores whose operands    *)
+(*              are computed in place.                                           *)
+(*   swapconst  the constants of two PUSHes exchanged (param = position of the   *)
+(*              second PUSH; field c = the constant)                             *)
 (***************************************************************************)
 EXTENDS Naturals, Sequences, Json, IOUtils, TLC
 
@@ -50,9 +60,13 @@ Valid(bi, p, k, x) ==
     [] k = "swapnext"  -> p < Len(blk) /\ x = 0 /\ blk[p] # blk[p + 1]
     [] k = "permute"   -> p = 1 /\ x \in 1..NPerms
     [] k = "index"     -> ins.op \in {"DUP", "SWAP"} /\ ((x = 1 /\ ins.k < 16) \/ (x = 2 /\ ins.k > 1))
+    [] k = "swapgroup" -> /\ ins.grp > 0 /\ x \in (p + 1)..Len(blk)
+                          /\ blk[x].grp = x - p
+                          /\ SubSeq(blk, p - ins.grp + 1, p) # SubSeq(blk, p + 1, x)
+    [] k = "swapconst" -> ins.push /\ x \in (p + 1)..Len(blk) /\ blk[x].push /\ blk[x].c # ins.c
     [] OTHER -> FALSE
 
-Kinds == {"swapargs", "subst", "const", "dropstore", "dupstore", "swapnext", "index", "permute"}
+Kinds == {"swapargs", "subst", "const", "dropstore", "dupstore", "swapnext", "index", "permute", "swapgroup", "swapconst"}
 Params == 0..(Len(Classes) * 10 + 2)
 
 Init == b \in 1..Len(Bases) /\ pos = 0 /\ kind = "none" /\ par = 0
